@@ -118,6 +118,13 @@ Proof. intros H; unfold be_dec, be_enc3; cbn [fold_left]; lia. Qed.
 Lemma be_dec_enc4 v : 0 <= v < 4294967296 -> be_dec (be_enc4 v) = v.
 Proof. intros H; unfold be_dec, be_enc4; cbn [fold_left]; lia. Qed.
 
+Lemma be_dec_cells2 v : 0 <= v < 65536 -> be_dec [(v / 256) mod 256; v mod 256] = v.
+Proof. exact (be_dec_enc2 v). Qed.
+
+Lemma be_dec_cells4 v : 0 <= v < 4294967296 ->
+  be_dec [(v / 16777216) mod 256; (v / 65536) mod 256; (v / 256) mod 256; v mod 256] = v.
+Proof. exact (be_dec_enc4 v). Qed.
+
 Lemma be_dec2 a b : be_dec [a; b] = a * 256 + b.
 Proof. unfold be_dec; cbn [fold_left]; lia. Qed.
 
@@ -475,7 +482,7 @@ Proof. intros ->. apply wb_from_app_r. Qed.
 Ltac side_blen := autorewrite with blen; zfold; lia.
 
 Ltac heval t :=
-  let v := eval cbv - [Z.div Z.modulo Z.land Z.lor Z.shiftl Z.shiftr Z.lxor Z.lnot] in t in
+  let v := eval cbv - [Z.div Z.modulo Z.land Z.lor Z.shiftl Z.shiftr Z.lxor Z.lnot be_dec] in t in
   change t with v.
 
 Ltac hstep :=
@@ -497,3 +504,22 @@ Ltac hstep :=
   | |- context [wb_sub ((?a :: ?h) ++ ?t) ?lo ?hi] =>
       rewrite (wb_sub_app_l (a :: h) t lo hi) by side_blen; heval (wb_sub (a :: h) lo hi)
   end; cbn [omap obind].
+
+(* split a buffer into an n-octet header and the rest *)
+Lemma split_hdr (l : list Z) (n : Z) : 0 <= n <= blen l ->
+  exists h t, l = h ++ t /\ length h = Z.to_nat n /\ blen t = blen l - n.
+Proof.
+  intros H. exists (firstn (Z.to_nat n) l), (skipn (Z.to_nat n) l).
+  split; [symmetry; apply firstn_skipn|].
+  split; [rewrite firstn_length; unfold blen in *; lia | apply blen_skipn; assumption].
+Qed.
+
+(* goals  <monadic expression> <> Panic  given no-panic facts for the leaves in the context *)
+Ltac nopanic :=
+  repeat first
+    [ assumption
+    | discriminate
+    | apply obind_nopanic; [ | intros ? ? ]
+    | match goal with |- (if ?c then _ else _) <> Panic => destruct c end
+    | match goal with |- wb_guard ?c <> Panic => destruct c; cbn [wb_guard] end
+    | match goal with |- (match ?x with _ => _ end) <> Panic => destruct x end ].
